@@ -6,15 +6,19 @@ from contracts import c09_pfba as CP
 from contracts import c09_absexpr as CA
 from contracts import c09_room as CR
 from contracts import c09_moma as CM  # noqa  (registers add_moma; its hooks are those of c09_room)
+from contracts import c09_drivers as CD  # (pfba / optimize_minimal_flux / moma / room, add_moma@quadratic; upgrades add_room / add_moma)
 from pyvc.contract import chain_hooks
 
 LEVEL = "other"
-KEYS = ["add_cons_vars_to_problem", "fix_objective_as_constraint", "add_pfba", "add_absolute_expression", "add_room", "add_moma"]
+KEYS = ["add_cons_vars_to_problem", "fix_objective_as_constraint", "add_pfba", "add_absolute_expression", "add_room", "add_moma",
+        "add_moma@quadratic"]
+KEYS_DRIVERS = ["pfba", "optimize_minimal_flux", "moma", "room"]
 
 
 def run(rep):
-    run_property(rep, KEYS, hooks=chain_hooks(CR.OWN_HOOKS, CP.HOOKS, CA.HOOKS, C3.ALL_HOOKS, C9.HOOKS),
-                 lemmas=lambda: CP.lemmas() + CA.lemmas() + CR.lemmas(), explanation=(
+    run_property(rep, KEYS, hooks=chain_hooks(CD.Q_HOOKS, CR.OWN_HOOKS, CP.HOOKS, CA.HOOKS, C3.ALL_HOOKS, C9.HOOKS),
+                 more=[(KEYS_DRIVERS, CD.HOOKS)],
+                 lemmas=lambda: CP.lemmas() + CA.lemmas() + CR.lemmas() + CD.lemmas(), explanation=(
         "Deductive part: the STRUCTURE of the three formulations is proved for models with any number of reactions, through an opaque "
         "expression algebra (every sympy/optlang operation is an uninterpreted function named after the operation, so 'the constraint "
         "built is Constraint(a - y*(b - c), ub=c, name=...)' is a syntactic statement); what the verifier cannot interpret is that this "
@@ -52,16 +56,45 @@ def run(rep):
         "Stated preconditions: every member of model.reactions has that model (so flux_expression is not None), the reactions DictList "
         "is well formed, delta/epsilon are floats (no NaN). Assumed (listed as trusted): Model.add_cons_vars(what) passes `what` to "
         "add_cons_vars_to_problem; Objective.set_linear_coefficients sets exactly the given coefficients; the fresh Objective(Zero) has "
-        "all coefficients 0; pfba(model) returns a solution and leaves the model as found (its own parts are add_pfba above and C03's "
-        "context). NOT proved deductively: quadratic MOMA (linear=False: QP objective, possible solver switch) and optimality of the "
-        "secondary problems - decided by the bounded driver: the documented problem rebuilt independently from (S, bounds, objective, "
+        "all coefficients 0; the context exit inside pfba(model) rolls the pFBA objective / constraint back (C03 / C13). "
+        "THE DRIVERS (contracts/c09_drivers.py, proved as data flow, any number of reactions). pfba(model, fraction_of_optimum, "
+        "objective, reactions), for objective None: add_pfba(model, objective=<given>, fraction_of_optimum=<given>) is called once, first, "
+        "on the untouched model, inside the function's own context (its proved contract applied); then exactly ONE solve "
+        "slim_optimize(error_value=None) in a state in which the pFBA objective (coefficient 1 on both variables of every reaction, min) "
+        "is still in force - a status other than optimal RAISES there (C04), so that on that exit no Solution is returned, get_solution "
+        "was never called and the context is closed; get_solution(model, reactions=R) is called once, right after that solve with "
+        "nothing changed in between and INSIDE the context (before the rollback), R = model.reactions or "
+        "model.reactions.get_by_any(reactions) (opaque, assumed) resolved before the context is entered; the value returned is that "
+        "Solution unchanged, its status optimal and its objective_value the solver's (finite) value of THAT solve, i.e. of the total "
+        "flux; the context stack is as at entry on return, when the solve raises and when add_pfba refuses (ValueError, nothing solved). "
+        "optimize_minimal_flux(*args, **kwargs): exactly one pfba call with the same positional values in the same order and the same "
+        "keywords, its result returned (three splittings of the arguments). moma(model, solution, linear) / room(model, solution, "
+        "linear, delta, epsilon): the builder is called once, first, on the untouched model, in the own context, with EVERY argument the "
+        "driver's own (its proved contract applied in a call-site form - the list handed to add_cons_vars as a ghost - that six lemmas "
+        "derive from the very post-conditions); then exactly ONE model.optimize() in the model's own direction while that problem is "
+        "in force; the Solution returned is the one of THAT solve (status / objective_value the solver's after it); the context is "
+        "closed on return, when the solve raises, when the reference pfba raises and when the builder refuses (ValueError). "
+        "add_moma with linear=False (key add_moma@quadratic; loop invariant): per reaction, in model order, dist_r = "
+        "Variable('moma_dist_'+id) and Constraint(flux_expression(r) - dist_r, lb=w, ub=w, name='moma_constraint_'+id) with w = "
+        "S.fluxes[r.id] BY ID, one add_cons_vars call with [moma_old_objective, its equality on the objective expression AT ENTRY, "
+        "dist_r1, const_r1, ...] (2+2n entries), the objective first replaced by Objective(Zero, min, sloppy) and LAST set to "
+        "Objective(add([dist_r1**2, ...]), direction='min', sloppy=True), the summed list having exactly the n squares in order; "
+        "precondition: the solver interface is QP-capable (the solver-switch branch is not covered). In ALL builders the reference for "
+        "solution None is now pfba(model) BY ITS PROVED CONTRACT (one call, before anything is built): its failure is a proved exit "
+        "(OptimizationError, nothing built / added / installed, stack as at entry); added precondition there: no pFBA objective "
+        "installed. NOT proved deductively: the solver-switch branch of quadratic MOMA, pfba with an explicit objective, and "
+        "optimality of the secondary problems - decided by the bounded driver: the documented problem rebuilt independently from (S, bounds, objective, "
         "reference) in exact rational arithmetic (ROOM binaries by enumeration) on generated models x objectives x fractions x "
         "references x knock-out states."),
         trusted=["sympy/optlang expression arithmetic denotes the linear combination it writes", "GLPK (assumed, monitored)",
                  "Model.add_cons_vars(what) hands `what` unchanged to add_cons_vars_to_problem (one-line wrapper, read not executed)",
                  "optlang Objective.set_linear_coefficients on freshly built variables sets exactly the given coefficients; "
                  "Objective(Zero, ...) has no non-zero coefficient",
-                 "pfba(model) (reference when none is given) returns a Solution and restores the model (with-block, C03)",
+                 "the context exit inside pfba(model) (reference when none is given) rolls its objective / constraint back (C03 / C13): "
+                 "applied as a step at the three call sites in add_room / add_moma",
+                 "a Solution is an opaque term whose status / objective_value are the solver's when get_solution is called (proved on "
+                 "get_solution:body, C04, for the default lists; assumed for an explicit reaction list) and Model.optimize returns the "
+                 "Solution of its own solve (as in C17); DictList.get_by_any resolves the given reactions (opaque, as in C19)",
                  "string concatenation is an uninterpreted injective-free function (names are compared as terms)"])
 
 
